@@ -827,6 +827,15 @@ func streamCont(o *Out, r *rand.Rand, n int, thorough bool) {
 		{"c = make([]map[interface]int64, 1)\nr = \"stored\"\ntry {\nc[0][[1, 2]] = 1\n} catch e {\nr = \"failed\"\n}\n[r, c[0] == nil]", "[]iface[string:" + hexOf("failed") + " bool:true]"},
 		{"t = make([]struct{M map[string]int64}, 1)\nr = \"stored\"\ntry {\nt[0].M[\"j\"] = [1]\n} catch e {\nr = \"failed\"\n}\n[r, t[0].M == nil]", "[]iface[string:" + hexOf("failed") + " bool:true]"},
 		{"d = make([]map[string]int64, 1)\nd[0][\"k\"] = 7\n[d[0] == nil, d[0].k]", "[]iface[bool:false int64:7]"},
+		// a made slice has the capacity Go gives it (len, unless one is asked for): two appends to the same base do not share storage
+		{"base = make([]int64, 2)\nb = base + 1\nc = base + 2\n[b, c]", "[]iface[[]int64[int64:0 int64:0 int64:1] []int64[int64:0 int64:0 int64:2]]"},
+		{"names = make([]string, 0)\nfunc grow(l, v) { return l + v }\nx = grow(names, \"x\")\ny = grow(names, \"y\")\n[x, y]", "[]iface[[]string[string:" + hexOf("x") + "] []string[string:" + hexOf("y") + "]]"},
+		{"r = make([]int64, 2)\nr[0:1:3]", "ERROR"}, {"r = make([]int64, 2, 4)\nlen(r[0:1:3])", "int64:1"}, {"r = make([]int64, 3)\nr[1:2:4]", "ERROR"},
+		{"a = make([]int64, 1)\nb = a\nb[len(b)] = 5\nc = a\nc[len(c)] = 6\n[a, b, c]", "[]iface[[]int64[int64:0] []int64[int64:0 int64:5] []int64[int64:0 int64:6]]"},
+		// `in` asks whether an element EQUALS the item: nothing is converted to the element type of a typed list first
+		{"t = make([]int64, 3)\nt[0] = 1\nt[1] = 2\nt[2] = 3\n[1.5 in t, 2 in t, 2.0 in t, nil in t, 4 in t]", "[]iface[bool:false bool:true bool:true bool:false bool:false]"},
+		{"ts = make([]string, 1)\nts[0] = \"A\"\n[65 in ts, \"A\" in ts, nil in ts]", "[]iface[bool:false bool:true bool:false]"},
+		{"tb = make([]bool, 1)\n[0 in tb, false in tb, nil in tb, \"\" in make([]string, 1)]", "SKIP"},
 		{"x = make(S)\ny = x\ny.A = 4\n[x.A, y.A]", "SKIP"},
 		{"x = make(S)\nx.Nope = 1", "ERROR"}, {"x = make(S)\nx.Nope", "ERROR"}, {"x = make(S)\nx.A = 3\nx.A", "int64:3"},
 		{"x = make(S)\nx.C = [1, 2]\nx.C[1]", "int64:2"}, {"x = make(S)\nx.D = {\"a\": 1}\nx.D.a", "int64:1"}, {"x = make(S)\nx.G = [1]\nx.G", "[]iface[int64:1]"},
